@@ -397,7 +397,7 @@ class VArr:
     @property
     def ndim(self):
         if self.space.ndim is None:
-            raise Unsupported("ndim of an array of unknown dimensionality")
+            return wrap(z3.Int(f"ndim_{self.space.name}"))  # symbolic dimensionality
         return self.space.ndim
 
     @property
@@ -872,6 +872,13 @@ class NpModule:
     def all(self, v, **k):
         if isinstance(v, VArr):
             return wrap(card(z3.Not(v.nonzero_term()), v.space) == 0)
+        if isinstance(v, SymSeq):
+            t = v.template
+            if isinstance(t, bool):
+                return t or wrap(to_term(v.length) <= 0)
+            if not isinstance(t, SymBool):
+                raise Unsupported("np.all of a symbolic sequence of non-bools")
+            return wrap(z3.ForAll([v.i0], z3.Implies(z3.And(v.i0 >= 0, v.i0 < to_term(v.length)), t.term)))
         rs = []
         for x in self.eng.iterate(v):
             if isinstance(x, bool):
@@ -1092,6 +1099,10 @@ def np_unique(eng, v):
         z3.ForAll([i], z3.Implies(z3.And(0 <= i, i < n), z3.And(at(cond, wit(i)), at(tt, wit(i)) == u(i))), patterns=[u(i)]),
         z3.ForAll([v_], z3.Implies(at(cond, v_), z3.And(0 <= idx(at(tt, v_)), idx(at(tt, v_)) < n, u(idx(at(tt, v_))) == at(tt, v_)))),
     ), why="np.unique")
+    if srt == I_:
+        # consequence of "strictly increasing integers" (induction): u(i) >= u(0) + i
+        eng.assume(z3.And(z3.ForAll([i], z3.Implies(z3.And(0 <= i, i < n), u(i) >= u(0) + i), patterns=[u(i)]),
+                          z3.Implies(n >= 1, u(n - 1) >= u(0) + n - 1)), why="np.unique (spacing of distinct integers)")
     out = SymSeq(wrap(n), lambda q: wrap(u(q), True, arr.dtype_name), name=f"unique!{k}")
     out.unique_of = (arr, cond, u, wit, idx, n)
     return out
